@@ -3,6 +3,7 @@ mod clock;
 mod des;
 mod exec;
 mod fake;
+mod freeleaf;
 mod model;
 mod real;
 
@@ -537,6 +538,9 @@ struct RealReplayFile {
     /// 0 = drawn, 1 = forced split, 2 = non-native asset (see real::run_real)
     #[serde(default)]
     plan: u8,
+    /// the run used the stand-in leaf circuit (freeleaf.rs)
+    #[serde(default)]
+    stand_in_leaf: bool,
 }
 
 fn plan_of(run: u64, shapes: usize) -> u8 {
@@ -577,6 +581,20 @@ fn real_main(property: &str, seed: u64, tier: Tier, replay: Option<String>, runs
         })
     };
     println!("artifacts for {:?} built at {:.1}s", shapes, (qpz_core::real_now_ns() - t0) as f64 / 1e9);
+    if let Some(rf) = replay_file.as_ref().filter(|rf| rf.stand_in_leaf) {
+        let ctx = freeleaf::build_ctx(rf.shape.0, rf.shape.1, seed);
+        let out = freeleaf::run_one(&ctx, rf.run_seed, rf.plan);
+        for (c, d) in &out.findings {
+            println!("replayed: class={c} {d}");
+        }
+        let _ = std::fs::remove_dir_all(format!("/dev/shm/qpz-pool-{}", std::process::id()));
+        if out.findings.iter().any(|(c, _)| c.starts_with(prefix)) {
+            println!("VIOLATION property={property} replay={}", replay.unwrap());
+            return EXIT_VIOLATION;
+        }
+        println!("replay: no violation on this tree");
+        return EXIT_OK;
+    }
     if let Some(rf) = &replay_file {
         let out = real::run_real(&arts[0], rf.run_seed, c18, c36, rf.plan);
         for l in &out.log {
@@ -653,11 +671,49 @@ fn real_main(property: &str, seed: u64, tier: Tier, replay: Option<String>, runs
     if dump {
         return EXIT_OK;
     }
+    // ---- C36 over the stand-in leaf circuit: statements real leaves cannot be steered into ----
+    let mut stand_in_first: Option<(u64, (usize, usize), String, String, u8)> = None;
+    let mut stand_in_runs = 0u64;
+    if c36 && first.is_none() {
+        let fshapes: Vec<(usize, usize)> = if quick { vec![(2, 2)] } else { vec![(2, 2), (3, 2), (2, 3), (1, 1)] };
+        for (fi, (fnn, fm)) in fshapes.iter().enumerate() {
+            let ctx = freeleaf::build_ctx(*fnn, *fm, seed);
+            let fcfg = BatchCfg { first_run: 0, max_runs: if quick { 8 } else { u64::MAX / 2 }, budget_s: if quick { 0 } else { qpz_core::budget_s(900) / 4 / fshapes.len() as u64 }, workers: 4, stop_on_failure: true };
+            let fres = run_batch(&fcfg, |_| (), |_, run| { let rs = mix(pseed, 0xF1EE_0000 + ((fi as u64) << 20) + run); (rs, (run % 8) as u8, freeleaf::run_one(&ctx, rs, (run % 8) as u8)) }, |(_, _, o)| o.findings.iter().any(|(c, _)| c.starts_with(prefix)));
+            for (_, (rs, hint, o)) in &fres {
+                stand_in_runs += 1;
+                probes.merge(&o.probes);
+                publics += o.public_proofs;
+                privates += o.private_proofs;
+                leaves += o.leaf_proofs;
+                histories.insert(o.history);
+                nontrivial.insert(o.history);
+                if samples.len() < 4 {
+                    if let Some(sm) = &o.sample {
+                        samples.push(json!({"seed": rs, "case": sm}));
+                    }
+                }
+                if stand_in_first.is_none() {
+                    if let Some((c, d)) = o.findings.iter().find(|(c, _)| c.starts_with(prefix)) {
+                        stand_in_first = Some((*rs, (*fnn, *fm), c.clone(), d.clone(), *hint));
+                    }
+                }
+            }
+        }
+    }
     let wall = (qpz_core::real_now_ns() - t0) as f64 / 1e9;
     let mut exit = EXIT_OK;
     let mut replay_path = String::new();
+    if let Some((rs, shape, class, detail, hint)) = &stand_in_first {
+        let rf = RealReplayFile { property: property.into(), sim: "pool".into(), mode: "real".into(), seed, run_seed: *rs, shape: *shape, class: class.clone(), detail: detail.clone(), plan: *hint, stand_in_leaf: true };
+        replay_path = format!("{}/{property}-{rs}.json", qpz_core::replay_dir());
+        std::fs::write(&replay_path, serde_json::to_string_pretty(&rf).unwrap()).unwrap();
+        println!("violation class={class} seed={rs} shape={shape:?}: {detail}");
+        println!("VIOLATION property={property} replay={replay_path}");
+        exit = EXIT_VIOLATION;
+    }
     if let Some((rseed, ai, f)) = &first {
-        let rf = RealReplayFile { property: property.into(), sim: "pool".into(), mode: "real".into(), seed, run_seed: *rseed, shape: shapes[*ai], class: f.class.clone(), detail: f.detail.clone(), plan: results.iter().find(|(_, (s, _, _))| s == rseed).map(|(run, _)| plan_of(*run, arts.len())).unwrap_or(0) };
+        let rf = RealReplayFile { property: property.into(), sim: "pool".into(), mode: "real".into(), seed, run_seed: *rseed, shape: shapes[*ai], class: f.class.clone(), detail: f.detail.clone(), stand_in_leaf: false, plan: results.iter().find(|(_, (s, _, _))| s == rseed).map(|(run, _)| plan_of(*run, arts.len())).unwrap_or(0) };
         replay_path = format!("{}/{property}-{rseed}.json", qpz_core::replay_dir());
         std::fs::write(&replay_path, serde_json::to_string_pretty(&rf).unwrap()).unwrap();
         println!("violation class={} seed={rseed} shape={:?}: {}", f.class, shapes[*ai], f.detail);
@@ -670,6 +726,7 @@ fn real_main(property: &str, seed: u64, tier: Tier, replay: Option<String>, runs
     let n = results.len() as u64;
     let mut extra = serde_json::Map::new();
     extra.insert("simulated_runs".into(), json!(n));
+    extra.insert("stand_in_leaf_runs".into(), json!(stand_in_runs));
     extra.insert("runs_per_hour".into(), json!((n as f64 / wall * 3600.0).round()));
     extra.insert("shapes_n_m".into(), json!(shapes));
     extra.insert("real_leaf_proofs".into(), json!(leaves));
